@@ -1361,7 +1361,7 @@ fn bytes_stream(driver: &Driver, seed: u64, n: u64) -> Stream {
 
 /// the byte-level open path of the model (`OpenBytes.openB`) on whole files — generated bases and what
 /// `save` made of them — against `Backend::read_xref_table_and_trailer`
-fn open_stream(driver: &Driver, seed: u64, n: u64) -> Stream {
+fn open_stream(driver: &Driver, seed: u64, n: u64, thorough: bool) -> Stream {
     use pdf::backend::Backend;
     let mut st = Stream::new("c09.open", true);
     let real = |bytes: &Vec<u8>| -> String {
@@ -1427,11 +1427,92 @@ fn open_stream(driver: &Driver, seed: u64, n: u64) -> Stream {
             imps.push(real(&f));
         }
     }
+    // large tables: sections of hundreds (thorough: thousands) of entries, classic and stream, one or two revisions
+    // linked by /Prev, subsections cut at random places, freed numbers, members of object streams; and the one-section
+    // stream `save` writes on top (`/Index [0 n]` with n in the thousands)
+    let nbig = if thorough { 60 } else { 14 };
+    for case in 0..nbig {
+        let mut rng = Rng::derive(seed, "c09.open.big", case);
+        let n = if thorough {
+            match case % 4 { 0 => 41 + rng.usize(400), 1 => 400 + rng.usize(1200), 2 => 1500 + rng.usize(2000), _ => 3000 + rng.usize(2500) }
+        } else {
+            match case % 3 { 0 => 41 + rng.usize(80), 1 => 120 + rng.usize(200), _ => 300 + rng.usize(300) }
+        } as u64;
+        let bytes = big_file(&mut rng, n);
+        st.count(&format!("file=big({})", match n { 0..=119 => "41-119 objects", 120..=399 => "120-399", 400..=1499 => "400-1499", 1500..=2999 => "1500-2999", _ => "3000+" }));
+        reqs.push(format!("c09.open {}", crate::driver::hex(&bytes)));
+        imps.push(real(&bytes));
+        // a save on top: the whole table again as one stream section
+        let saved = catch_unwind(AssertUnwindSafe(|| -> Option<Vec<u8>> {
+            let (mut stg, mut tr) = open_plain(&bytes).ok()?;
+            stg.update(PlainRef { id: 3, gen: 0 }, W(dict_val(900_000 + case as i64, "Big"))).ok()?;
+            stg.create(W(dict_val(900_100 + case as i64, "New"))).ok()?;
+            stg.save(&mut tr).ok().map(|b| b.to_vec())
+        }));
+        if let Ok(Some(f)) = saved {
+            st.count("file=big-saved");
+            reqs.push(format!("c09.open {}", crate::driver::hex(&f)));
+            imps.push(real(&f));
+        } else {
+            st.count("file=big-save-failed");
+        }
+    }
     let resp = driver.ask(&reqs);
     for ((rq, m), i) in reqs.iter().zip(resp.iter()).zip(imps.iter()) {
         st.case(rq, m, i, i.starts_with("ok"));
     }
     st
+}
+
+/// a file with `n` numbers: catalog, page tree root, small dictionaries, some numbers freed, (stream format) some
+/// compressed in object streams; optionally a second revision that rewrites and frees scattered numbers
+fn big_file(rng: &mut Rng, n: u64) -> Vec<u8> {
+    let stream_fmt = rng.chance(1, 2);
+    let prefix: &[u8] = if rng.chance(1, 4) { b"%junk in front\n" } else { b"" };
+    let mut w = PdfWriter::new(prefix, "1.7");
+    w.free(0, 0, 65535);
+    w.object(1, 0, b"<< /Type /Catalog /Pages 2 0 R >>");
+    w.object(2, 0, b"<< /Type /Pages /Kids [] /Count 0 >>");
+    w.object(3, 0, b"<< /Marker 3 >>");
+    let mut id = 4u64;
+    // object streams take their own number behind the members
+    while id <= n {
+        if stream_fmt && rng.chance(1, 12) && id + 12 < n {
+            let k = 2 + rng.below(9);
+            let members: Vec<(u64, Vec<u8>)> = (0..k).map(|j| (id + j, format!("<< /Marker {} >>", id + j).into_bytes())).collect();
+            w.object_stream(id + k, &members, if rng.chance(1, 2) { StmFilter::Flate } else { StmFilter::None }, b"\n", "");
+            id += k + 1;
+        } else if rng.chance(1, 15) {
+            w.free(id, 0, 1 + rng.below(3));
+            id += 1;
+        } else if rng.chance(1, 40) {
+            // a number that is simply not mentioned: the section is split there
+            id += 1;
+        } else {
+            w.object(id, 0, format!("<< /Marker {} >>", id).as_bytes());
+            id += 1;
+        }
+    }
+    let size = n + 2;
+    let cuts: Vec<usize> = (0..rng.usize(6)).map(|_| rng.usize(n as usize)).collect();
+    w.finish(if stream_fmt { XrefFormat::Stream } else { XrefFormat::Classic }, size, "/Root 1 0 R", &cuts, n + 1);
+    if rng.chance(1, 2) {
+        // second revision: every so-many-th number rewritten or freed, its own (sparse) section, /Prev
+        let stride = 2 + rng.below(9);
+        let mut j = 5 + rng.below(stride);
+        while j <= n {
+            if rng.chance(1, 6) {
+                w.free(j, 0, 7);
+            } else {
+                w.object(j, 0, format!("<< /Marker {} /Rev 2 >>", j).as_bytes());
+            }
+            j += stride;
+        }
+        let fmt2 = if stream_fmt && rng.chance(2, 3) { XrefFormat::Stream } else { XrefFormat::Classic };
+        let (size2, xid2) = if matches!(fmt2, XrefFormat::Stream) { (n + 3, n + 2) } else { (size, 0) };
+        w.finish(fmt2, size2, "/Root 1 0 R", &[], xid2);
+    }
+    w.out.clone()
 }
 
 /// `byte_len` through `write_stream`: a table whose largest field is `n` gets /W [1 byte_len(n) …]
@@ -1861,7 +1942,7 @@ pub fn run(driver: &Driver, seed: u64, thorough: bool, replay: Option<&Value>) -
     rep.oracles.push(witnesses());
     rep.streams.push(bytelen_stream(driver, seed, thorough));
     rep.streams.push(bytes_stream(driver, seed, if thorough { 20_000 } else { 1500 }));
-    rep.streams.push(open_stream(driver, seed, if thorough { 5_000 } else { 300 }));
+    rep.streams.push(open_stream(driver, seed, if thorough { 5_000 } else { 300 }, thorough));
     let (st, or) = histories(driver, seed, 0, if thorough { 60_000 } else { 6000 }, false);
     rep.streams.push(st);
     rep.oracles.push(or);
